@@ -34,6 +34,8 @@ enum { RE_none = 0, RE_eager = 1, RE_lazy = 2 };          /* enum class region_e
 #define XV_GRACE 3                                        /* what the algorithm needs: a node retired with tag t may be freed at epoch n only if n - t >= 3 */
 #define TSAN_MEMORY_ORDER(tsan_order, normal_order) normal_order   /* port.hpp, non-TSan branch */
 #define XV_MIN_INT(a, b) ((int)(a) < (int)(b) ? (int)(a) : (int)(b))   /* std::min<int> */
+#define XV_MIN_EPOCH(a, b) ((epoch_t)(a) < (epoch_t)(b) ? (epoch_t)(a) : (epoch_t)(b))   /* std::min<epoch_t> (repaired tree) */
+#define CHAIN_last(c) (c)                                 /* last node of a non-empty chain (repaired tree); chain = node set */
 size_t in_scan_freq;                                      /* Traits::scan_frequency: symbolic */
 size_t in_threshold;                                      /* when_exceeds_threshold<Threshold>: symbolic, >= 1 */
 #define XV_SCAN_FREQ in_scan_freq
@@ -105,13 +107,14 @@ chain_t deleted_mask;                 /* nodes whose delete_self has run */
 chain_t g_bit; epoch_t g_tag;         /* the tracked node and the local epoch of its retiring thread at the time it was retired */
 unsigned n_delete_calls, n_steal, n_ol_add, n_ol_adopt, n_push; _Bool del_twice, stub_pre_violated;
 chain_t deleted_in_call; uint64_t last_delete_clk;
+chain_t in_flight;                    /* chains taken out of a list by steal/adopt and not yet deleted or put into a list */
 #ifdef XV_INT
 void xv_env(void);
 #endif
 /* retire_list / counting_retire_list (contracts proved in unit rlist): push adds the node, steal returns the whole chain and leaves the
  * list empty, size() = number of nodes, empty() <=> no nodes */
 static _Bool rl_empty(struct rlist* l) { return l->set == 0; }
-static struct rnodes rl_steal(struct rlist* l) { struct rnodes r; r.first = l->set; r.last = l->set; l->set = 0; n_steal++; return r; }
+static struct rnodes rl_steal(struct rlist* l) { struct rnodes r; r.first = l->set; r.last = l->set; in_flight |= l->set; l->set = 0; n_steal++; return r; }
 static chain_t all_nodes(void);
 static void rl_push(struct rlist* l, chain_t node) {
   if (node == 0 || (node & (node - 1)) != 0 || (node & all_nodes()) != 0) stub_pre_violated = 1;   /* one node, in no list, not deleted */
@@ -119,16 +122,17 @@ static void rl_push(struct rlist* l, chain_t node) {
 }
 static size_t rl_size(struct rlist* l) { return (size_t)__builtin_popcount(l->set); }
 /* orphan_list: add splices a non-empty chain in, adopt takes everything; both are atomic accesses (environment step in INT mode) */
+static void env_orph_hook(void);
 static void ol_add(struct olist* o, struct rnodes n) {
-  XV_ENV(); xv_clock++;
+  env_orph_hook(); xv_clock++;
   if (n.first == 0 || (n.first & o->set) != 0) stub_pre_violated = 1;
-  o->set |= n.first; n_ol_add++;
+  o->set |= n.first; in_flight &= ~n.first; n_ol_add++;
 }
-static chain_t ol_adopt(struct olist* o) { XV_ENV(); xv_clock++; chain_t r = o->set; o->set = 0; n_ol_adopt++; return r; }
+static chain_t ol_adopt(struct olist* o) { env_orph_hook(); xv_clock++; chain_t r = o->set; o->set = 0; in_flight |= r; n_ol_adopt++; return r; }
 /* delete_objects(list): delete_self on every node of the chain, exactly once each; list = nullptr */
 static void delete_objects(chain_t* list) {
   if ((*list & deleted_mask) != 0) del_twice = 1;
-  deleted_mask |= *list; deleted_in_call |= *list; *list = 0; n_delete_calls++; last_delete_clk = xv_clock++;
+  deleted_mask |= *list; deleted_in_call |= *list; in_flight &= ~*list; *list = 0; n_delete_calls++; last_delete_clk = xv_clock++;
 }
 #define RL_empty(l) rl_empty(&(l))
 #define RL_steal(l) rl_steal(&(l))
@@ -138,7 +142,7 @@ static void delete_objects(chain_t* list) {
 #define OL_adopt(o) ol_adopt(&(o))
 #define DELETE_OBJECTS(x) delete_objects(&(x))
 static chain_t all_nodes(void) {
-  chain_t u = deleted_mask;
+  chain_t u = deleted_mask | in_flight;
   for (unsigned i = 0; i < XV_MAXNE; i++) u |= ltd.retire_lists[i].set | orphans[i].set;
   return u;
 }
@@ -217,6 +221,12 @@ static struct rnodes td_adopt_orphans(struct td* self, epoch_t epoch);
 
 static void stub_update_local_epoch(struct td* self, epoch_t new_epoch);
 static epoch_t stub_update_global_epoch(struct td* self, epoch_t curr_epoch, epoch_t new_epoch);
+static void stub_do_enter_critical(struct td* self);
+#ifdef XV_STUB_DO_ENTER
+#define CALL_do_enter_critical stub_do_enter_critical
+#else
+#define CALL_do_enter_critical td_do_enter_critical
+#endif
 #ifdef XV_STUB_UPDATE
 #define CALL_update_local_epoch stub_update_local_epoch
 #define CALL_update_global_epoch stub_update_global_epoch
@@ -243,7 +253,15 @@ _Static_assert(number_epochs >= 2 && number_epochs <= XV_MAXNE, "array shape XV_
 static _Bool trk_ok(epoch_t e) {
   return trk_prevalid || (trk_flag_seen && (!trk_flag_val || (trk_ep_seen && trk_ep_val == e)));
 }
+#ifdef XV_INT
+static void env_ge_step(void); static _Bool env_ent_step(void* a);
+#endif
 static void mon_load(void* a, uint64_t v, int o) {
+#ifdef XV_INT
+  /* targeted environment steps: the cell is rewritten right before it is read (the macro reads the cell after this monitor) */
+  if (a == (void*)&global_epoch) { env_ge_step(); v = global_epoch; }
+  else if (in_scan && env_ent_step(a)) { if (a == trk_flag_addr) v = trk->is_in_critical_region; if (a == trk_le_addr) v = trk->local_epoch; }
+#endif
   if (mon_src && a == (void*)mon_src) { mon_src_loads++; mon_src_last = (mptr)v; mon_src_last_order = o; mon_src_last_clk = xv_clock; }
   if (a == (void*)&global_epoch) {
     if (n_ge_load == 0) { ge_first_clk = xv_clock; ge_first_order = o; ge_first_val = v; ge_first_rem = ge_rem; }
